@@ -191,7 +191,11 @@ func (ce *cenv) typed(t types.Type, tm *Term) {
 	if x.noTypeFacts {
 		return
 	}
-	f := x.env.te.typeFacts(t, tm, nil, 0)
+	var al *Term
+	if x.factSink == nil {
+		al = ce.st.H("$alloc", sortInt)
+	}
+	f := x.env.te.typeFacts(t, tm, al, 0)
 	if f == tTrue {
 		return
 	}
@@ -320,7 +324,17 @@ func (ce *cenv) evalQuant(e *CExpr) cvar {
 			}
 		}
 	}
-	pre := mkAnd(append(ranges, inner...)...)
+	// typing facts about the bound variables hold for every instance: they are assumed as a
+	// separate universally quantified fact instead of weakening the body with a premise.
+	if len(inner) > 0 {
+		tf := mkForall(bound, mkAnd(inner...))
+		if save != nil {
+			*save = append(*save, tf)
+		} else {
+			x.assume(ce.st, tf)
+		}
+	}
+	pre := mkAnd(ranges...)
 	if e.Op == "forall" {
 		return cvar{mkForall(bound, mkImp(pre, body)), types.Typ[types.Bool]}
 	}
@@ -819,6 +833,9 @@ func (ce *cenv) evalCall(e *CExpr) cvar {
 			ptr = true
 			tn = tn[4:]
 		}
+		if tn == "bytes" {
+			return cvar{x.typeTest(iv, types.NewSlice(types.Typ[types.Uint8])), boolT}
+		}
 		obj := x.env.pkg.Types.Scope().Lookup(tn)
 		if obj == nil {
 			ce.fail("typeis: unknown type %s", tn)
@@ -828,6 +845,14 @@ func (ce *cenv) evalCall(e *CExpr) cvar {
 			t = types.NewPointer(t)
 		}
 		return cvar{x.typeTest(iv, t), boolT}
+	case "unboxbytes":
+		argn(1)
+		v := ce.eval(e.Args[0])
+		iv := x.toTerm(v.v, v.t)
+		bt := types.NewSlice(types.Typ[types.Uint8])
+		tm := x.unbox(iv, bt).(*Term)
+		ce.typed(bt, tm)
+		return cvar{tm, bt}
 	case "unboxptr":
 		// unboxptr(x, TypeName): pointer stored in interface x
 		argn(2)
